@@ -26,6 +26,11 @@ FOCUS = {
   * LESS-TRAVELLED API SURFACE: the same quantity is reachable through several public routes (method vs module-level function, property vs method, convenience wrappers, alternative constructors / classmethods, optional keyword arguments with non-default values, alternative accepted argument types such as str vs list vs numpy array vs pymatgen objects). Break one of the rarer routes and leave the common one intact.
   * POSITION-DEPENDENT OFF-BY-ONES: the first or last frame / atom / site / voxel / bin / row / part is treated differently from the interior ones, or the fault shows only when a count is a multiple / not a multiple of another (frames vs parts, grid size vs chunk size, number of rows vs block length).
   * PARTIAL FIXES AND GUARDS: a guard or fast path (`if all(...)`, `if len(x) == 1`, `if np.allclose(...)`, `try/except` fallback, early `return`) that is right for almost every input but takes the wrong branch for a narrow class of valid inputs.""",
+ 'C': """Aim this time at faults of the following kinds (pick whichever fit this property best):
+  * ALGORITHM REPLACEMENTS: a loop replaced by a vectorised expression or a library call (np.unique / searchsorted / bincount / einsum / argsort, scipy cKDTree / cdist, pandas groupby / merge / drop_duplicates / sort_values, a networkx routine) that is equivalent except for ties, duplicates, NaN, empty groups, an ordering assumption, dtype promotion, or broadcasting of a length-1 axis.
+  * CONVENTIONS AND UNITS: fractional vs Cartesian, row vs column vectors (matrix vs its transpose - invisible for symmetric or orthogonal cells), degrees vs radians, fs vs ps vs s, Angstrom vs m, frame index vs time, inclusive vs exclusive interval ends, 0- vs 1-based indices, population vs sample statistics.
+  * INPUT NORMALISATION: inputs that are valid but not in canonical form - coordinates outside [0,1), unsorted / duplicated / oxidation-state-decorated species, labels that are None or contain separators, site structures that carry extra site properties, numpy scalar types (np.int64, np.float32) or bools where Python numbers are usual, tuples / arrays where lists are usual, Lattice vs 3x3 array, negative or zero-valued optional arguments that are falsy.
+  * ERROR AND EDGE PATHS: a documented exception swallowed and replaced by a default, an `except` clause broadened, a warning path that continues with a wrong value, a result for an empty / single-element selection.""",
 }[focus]
 prev_txt = ('\n\nEarlier helpers already produced the following changes for this property. Do NOT repeat these ideas or close variants of them (same line of code, same mechanism); find different ones:\n' + '\n'.join(prev)) if prev else ''
 print(f"""You are helping to evaluate a verification effort for the open-source Python library GEMDAT (analysis of molecular-dynamics trajectories for ion diffusion, built on pymatgen). You have your own scratch git worktree of the repository at {wt} (source under {wt}/src/gemdat, tests under {wt}/tests). Work ONLY inside {wt} (and, for temporary files, {wt}/.scratch). Do not read or touch /repo, /verif or any other directory; do not commit anything and NEVER use `git stash` (the stash is shared with other people's worktrees of the same repository): switch between patched and unpatched states only with `git diff > file`, `git checkout -- .` and `git apply file`.
